@@ -161,3 +161,15 @@ Proof.
   exists H. cbn [fst snd]. unfold nA. rewrite A2. split; [apply ext_grow; exact L|]. split; [|exact R].
   unfold wf. rewrite A1, A2, A3. exact W.
 Qed.
+
+(* ---- the clause for libfull2, the lifted LibSeq functions left as the one premise ---- *)
+Theorem libfull2_run_terminates_seq : seq_pres ->
+  forall cfg cfg' url_rel lint_lines, (0 < c_max cfg)%Z ->
+  forall sc w, closures_wf w ->
+  exists fuel r, (forall bot fuel', (fuel <= fuel')%nat ->
+                    C09term.execute_script_bot cfg (libfull2 cfg') url_rel lint_lines bot fuel' sc w = r) /\
+                 closures_wf (snd r).
+Proof. intros Hseq. exact (libfull2_run_terminates_wf Hseq libmore_pres). Qed.
+
+Theorem libfull2_sim_seq : seq_pres -> forall poison cfg, LibSim poison (libfull2g cfg) (libfull2 cfg).
+Proof. intros Hseq poison cfg. exact (libfull2_sim poison Hseq libmore_pres cfg). Qed.
